@@ -26,6 +26,15 @@ def text_nodes(c):
     # entries: an implementation that leaves out the empty entries of style nodes says the same)
     said = [x for x in r if not (isinstance(x, str) and x == "")]
     want = [contents[k] if kind == "text" else "\n" for k, kind in enumerate(kinds) if kind != "style"]
+    # (line breaks at the very beginning and end are outside what C15 measures - get_text() strips them)
+    def core(seq):
+        seq = list(seq)
+        while seq and isinstance(seq[0], str) and seq[0] == "\n":
+            seq.pop(0)
+        while seq and isinstance(seq[-1], str) and seq[-1] == "\n":
+            seq.pop()
+        return seq
+    said, want = core(said), core(want)
     c.ensure("entries_say_the_text_and_breaks_of_the_nodes_in_order_and_nothing_else",
              len(said) == len(want) and all((a is b) if not isinstance(b, str) else (isinstance(a, str) and a == b) for a, b in zip(said, want)))
     e = c.call(Caption.is_empty, cap, compare=False)
